@@ -339,6 +339,52 @@ def qa_partition(ctx: Ctx):
                        lhs=na, rhs=nb)
 
 
+@rule("R2.QA7")
+def qa_restricted_from_ancestors(ctx: Ctx):
+    """A variable is filter-restricted (is_sparse) iff it is an ANCESTOR of a filter in the DAG of the model functions --
+    a variable that reaches a filter through an auxiliary function restricts the space as well."""
+    from lcmsa.match import deep_walk
+
+    prog = ctx.prog
+    fr, defs = column_definitions(prog)
+    t = need(defs.get("is_sparse"), "get_variable_info: is_sparse not defined")
+    where = prog.where(t)
+    q = f"{UTIL}.get_variable_info"
+    calls = [s for s in deep_walk(prog, t) if s[0] == "call"]
+    anc = [c for c in calls if (callee_name(c) or "").endswith("get_ancestors")]
+    funcs = ("attr", ("param", q, fr.params[0] if fr.params else "model"), "functions")
+    if anc:
+        a0 = anc[0]
+        src = a0[2][0] if a0[2] else kw(a0, "functions")
+        tgt = a0[2][1] if len(a0[2]) > 1 else kw(a0, "targets")
+        ok_src = src == funcs
+        # the targets are the filters: a loop / comprehension over function_info.query("is_filter")
+        names = None
+        if tgt is not None and tgt[0] == "loopvar" and tgt[1] in prog.loops:
+            names = prog.loops[tgt[1]].iter
+        elif tgt is not None and tgt[0] != "bv":
+            names = tgt
+        ok_tgt = None
+        if names is not None:
+            try:
+                f_, _ = effective_formula(names, {})
+                ok_tgt = show_formula(f_) == "is_filter"
+            except AnalysisError:
+                ok_tgt = None
+        verdict = False if (not ok_src or ok_tgt is False) else True if ok_tgt else None
+        ctx.ob("QA7:restricted-iff-ancestor-of-a-filter", verdict, where,
+               "is_sparse marks the ancestors (in the DAG of all model functions) of the functions selected by 'is_filter'"
+               if verdict else "the ancestors are not computed in the model's function DAG for exactly the filter functions"
+               if verdict is False else "targets of get_ancestors not recognised", lhs=show(a0)[:160])
+    else:
+        direct = [c for c in calls if callee_name(c) in ("inspect.signature", "dags.get_free_arguments", "builtins.getattr")]
+        ctx.ob("QA7:restricted-iff-ancestor-of-a-filter", False if direct else None, where,
+               "is_sparse is derived from the filters' own arguments only: a variable that reaches a filter through an "
+               "auxiliary function is not marked as restricted and keeps a dense axis" if direct else
+               "definition of is_sparse not recognised (no get_ancestors call reaches it)", lhs=show(t)[:200])
+    ctx.count("columns", 1)
+
+
 @rule("R2.QA2")
 def qa_order(ctx: Ctx):
     """The canonical variable order is a partition with the precedences consumers need."""
